@@ -16,7 +16,8 @@ RULE = ("1 qubit: V = product of 1-4 arbitrary 2x2 unitaries (haar blocks), name
         ">= -1e-6, trace-preserving (1e-3), process_fidelity and reported fidelity in [0.99, 1+1e-3]; "
         "GateFidelity.process(V) = 1 and process(W) = (|tr W^dagger V|^2 + d)/(d(d+1)) (1e-8) for generated targets "
         "W; choi_from_unitary(V) equals the independent definition sum |i><j| (x) V|i><j|V^dagger. Non-trivial = V "
-        "neither real nor symmetric up to a phase; distinct = case JSON.")
+        "neither real nor symmetric up to a phase; distinct = case JSON."
+        " Base circuits may carry directly declared heralds at arbitrary positions; gate-fidelity targets include unitaries 1-20 mrad away from V.")
 ASSUMPTIONS = [
     "MLE 'fidelity one' is read at the property's own 0.99 (optimiser stopping tolerance)",
     "a post-selected entangling gate is only followed by local gates on its qubits",
